@@ -570,6 +570,12 @@ func ToEntry(n Node) (e *Entry) {
 	if e := ms.getEntryCache(n); e != nil {
 		return e
 	}
+	if _, ok := n.(*Grouping); ok {
+		if !ms.enterEntry(n) {
+			return newError(n, "grouping %s uses itself", n.NName())
+		}
+		defer ms.leaveEntry(n)
+	}
 	defer func() {
 		ms.setEntryCache(n, e)
 	}()
